@@ -9,10 +9,24 @@ BASE_NOTE = ("Trusted base: Go front end + go/ssa (x/tools v0.29.0), the gosym i
 
 # property -> (level text, level note, design ref)   (only claimed properties)
 CLAIMED = {
+ "C05": ("For each of the six etypes and each registered plaintext length (quick: 0,1,7,8,9,15,16,17,31,32,33; thorough adds 47..130) the real EncryptMessage/DecryptMessage/GetEncryptedData code is executed symbolically with key, confounder (= what crypto/rand returned), plaintext and ALL non-zero 32-bit key usages symbolic and shown equal, byte for byte, to an RFC 3961/3962/8009/4757 reference model written over the same uninterpreted primitives; the library decrypts the reference's ciphertext for any confounder. One solver verdict covers all keys/usages/contents of a length; lengths are enumerated.",
+         BASE_NOTE + "AES/DES/RC4/SHA/MD5/HMAC/PBKDF2 are uninterpreted functions (block ciphers with D(E(x))=x); n-fold and des3 random-to-key are summarised by one symbol on both sides here and proved against their RFC definitions under C08. The reference model is validated natively when counterexamples are replayed. Lengths not registered are outside the claim.", "6 (C05), 3.2"),
+ "C06": ("General form, no adversary model: for EVERY byte string x of the length of an RFC ciphertext (plaintext lengths 0,1,15,16,17,33; thorough more), every key and non-zero usage, if DecryptMessage accepts x and returns p then x is exactly the RFC encryption of p. Constructive forms in the idealised-MAC model: every non-zero mask confined to the body, or to the tag, every other key, every other non-aliased usage is rejected; plus a history form (key buffer refilled in place between calls).",
+         BASE_NOTE + "Idealised model: HMAC tags / block-cipher outputs / n-fold of distinct operands differ (no collisions); simultaneous change of body and tag is a MAC forgery excluded by assumption (DESIGN 3.2). rc4 tag-only tampering is covered by the general form only. des3 keys are compared modulo DES parity bits.", "6 (C06), 3.2"),
+ "C07": ("GetChecksumHash equals the RFC definition (RFC 3961/3962 simplified profile, RFC 8009 KDF form, RFC 4757 HMAC-MD5) for all keys, usages and data contents at data lengths 0,1,64,65,200 (thorough adds 5,63,128); VerifyChecksum accepts exactly that value against fully symbolic candidates of length L-1, L, L+1 and rejects truncation, extension and every changed bit; other data/key/usage rejected (idealised MAC); GetChksumEtype/GetEtype equal the IANA table for ALL 2^32 ids; history form across etypes sharing key bytes.",
+         BASE_NOTE + "Primitives uninterpreted as for C05; idealised MAC for the rejection clauses.", "6 (C07)"),
+ "C08": ("Compositional: (1) the bit-serial onesComplementAddition equals end-around-carry addition for ALL operand pairs of 1,2,8 bytes (thorough 16, 21) by if-conversion; rotateRight equals bit rotation; Nfold equals the RFC 3961 5.1 construction for every content at the registered (input length, output size) pairs (thorough: every input length 1..64 x {64,128,168}); (2) des3 random-to-key incl. parity and all 16 weak-key corrections for ALL 2^56 group seeds; (3) DR/DK, RFC 8009 KDF-HMAC-SHA2 with the RFC key lengths, rc4 HMAC; (4) string-to-key for des3, aes-sha1, aes-sha2 for all byte contents of passwords/salts of the registered lengths and ALL 2^32 iteration parameters; default parameters; (5) generated keys and subkeys have the etype's key length and encrypt/decrypt.",
+         BASE_NOTE + "PBKDF2/HMAC/hash internals are uninterpreted (iteration count is an argument). PA-DATA precedence (GetKeyFromPassword) and rc4 UTF-16 conversion are not yet covered in this revision. Password lengths above the bound are outside the claim.", "6 (C08)"),
  "C13": ("Helper and framing clauses only: for every length in [0,2^31) MarshalLengthBytes is the minimal DER definite length and GetLengthFromASN/GetNumberBytesInLengthHeader invert it; "
          "SetFlag/UnsetFlag/IsFlagSet use RFC 4120 MSB-first numbering for all 32x32 index pairs and all flag words. Decided by the solver over all values, not sampled. "
          "Round-trip/RFC conformance of the reflection-driven ASN.1 codec itself is outside the claim (DESIGN.md section 7).",
          BASE_NOTE + "The gofork asn1 codec (reflection) is not executed.", "6 (C13), 7"),
+ "C14": ("Lookup: for every keytab of 0..2 entries (thorough 3) with 0..2 components, symbolic names, full-range kvno/etype/timestamps, and every query: success implies the returned key/kvno belong to an entry matching realm, every component, etype and kvno (any if 0) that no matching entry is newer than; no match implies error; variable-length component strings (empty components, separators inside components) in a separate instance. Round trip Marshal/Unmarshal for versions 1 and 2. A file written by an independent writer from the MIT format text (holes, with/without 32-bit kvno) parses to exactly the model.",
+         BASE_NOTE + "Bounds: entry/component counts and string/key lengths as registered; Load from disk not covered.", "6 (C14)"),
+ "C15": ("A ccache file rendered by an independent writer (harness, from the MIT format text) for versions 1-4 from a symbolic model (principals, key, times, is_skey, flags, 0..1 addresses/authdata, tickets, v4 header field, configuration entry) parses to exactly the model; GetEntry/Contains return the first credential whose server name equals the query, GetEntries drops exactly the X-CACHECONF entries in order and the accessors do not disturb the parsed list.",
+         BASE_NOTE + "Counts/lengths as registered (quick: <=2 credentials); client.NewFromCCache (ASN.1 ticket decoding) not covered in this revision.", "6 (C15)"),
+ "C17": ("Layout: Wrap/MIC Marshal produce the RFC 4121 4.2.6 layout byte for byte for symbolic flags/EC/RRC/64-bit sequence numbers and Unmarshal inverts it; Unmarshal errors exactly when token id, filler, direction flag or EC is unacceptable, for EVERY token of the registered lengths and both expected directions. Checksum: SetCheckSum/SetChecksum store the RFC checksum of payload|header(EC=RRC=0) for all six etypes, keys, usages, payload contents (payload lengths 0,1,2,17; thorough 100,300); Verify accepts exactly that value; any change of payload, flags, sequence number, key or usage fails (idealised MAC); initiator constructors use usages 24/25.",
+         BASE_NOTE + "Primitives uninterpreted as for C05/C07. RRC is not protected for unsealed tokens by RFC 4121 (not in the statement).", "6 (C17)"),
 }
 
 NOT_APPLICABLE = {
